@@ -245,6 +245,32 @@ impl RoutingTable {
     }
 }
 
+#[cfg(mainline_verif)]
+impl RoutingTable {
+    pub(crate) fn verif_snapshot(&self) -> crate::verif::TableSnap {
+        crate::verif::TableSnap {
+            id: *self.id.as_bytes(),
+            buckets: self
+                .buckets
+                .iter()
+                .map(|(k, b)| (*k, b.nodes.iter().map(|n| n.verif_snapshot()).collect()))
+                .collect(),
+            size: self.size(),
+            is_empty: self.is_empty(),
+            iterated: self.nodes().count(),
+            to_bootstrap: self.to_bootstrap(),
+            dht_size_estimates_count: self.dht_size_estimates_count,
+            dht_size_estimates_sum: self.dht_size_estimates_sum,
+            responders_samples_count: self.responders_samples_count,
+            responders_size_estimates_sum: self.responders_size_estimates_sum,
+            responders_subnets_sum: self.responders_subnets_sum,
+            dht_size_estimate: self.dht_size_estimate(),
+            average_subnets: self.average_subnets(),
+            responders_based_dht_size_estimate: self.responders_based_dht_size_estimate(),
+        }
+    }
+}
+
 pub struct RoutingTableIterator<'a> {
     bucket_index: u8,
     node_index: usize,
